@@ -200,7 +200,9 @@ class ProcessDiameterMessage:
 
     @staticmethod
     def is_valid_host_ip_address_avp(avp, connection):
-        if (avp.code == HOST_IP_ADDRESS_AVP_CODE):
+        #: Another vendor's AVP may use the same code: it carries no address 
+        #: family and address octets to be read.
+        if (avp.code == HOST_IP_ADDRESS_AVP_CODE) and not avp.is_vendor_id():
             host_ip_address = "{}.{}.{}.{}".format(int(avp.data[2]),int(avp.data[3]),int(avp.data[4]),int(avp.data[5]))
             return True
             # if connection.peer_node.ip_address == host_ip_address:
